@@ -72,11 +72,11 @@ def rules(ctx, db):
 
     # ---------------- R3
     tk = [f for f in db.fns.values() if f.id.startswith("compio_driver::fd::") and "take" in f.id and f.kind in ("closure", "coroutine")]
-    pf = [f for f in tk if calls(f, r"WakerSlot::register$")]
+    pf = [f for f in tk if calls(f, r"(WakerSlot|AtomicWaker)::register$")]
     ctx.floor("R3", "SharedFd::take poll closure", len(pf), 1)
     for f in pf:
         tu = [bb for bb, _ in calls(f, r"(Rc|Arc|Shared)::<.*>::try_unwrap$")]
-        rg = [bb for bb, _ in calls(f, r"WakerSlot::register$")]
+        rg = [bb for bb, _ in calls(f, r"(WakerSlot|AtomicWaker)::register$")]
         ok = len(tu) == 2 and len(rg) == 1
         if ok:
             a, b = sorted(tu, key=lambda x: 0 if f.cfg.dominates(x, rg[0]) else 1)
@@ -89,18 +89,18 @@ def rules(ctx, db):
                "Pending is returned only after the second try_unwrap failed (with the waker registered)", f)
     co = [f for f in tk if f.kind == "coroutine"]
     for f in co:
-        sw = [bb for bb, t in calls(f, r"atomic::AtomicBool::swap$|AtomicBool(::<.*>)?::swap$")]
+        sw = [bb for bb, t in calls(f, r"(AtomicBool|Atomic)(::<.*>)?::swap$")]
         pfn = [bb for bb, _ in calls(f, r"^core::future::poll_fn::poll_fn$|poll_fn$")]
-        ctx.ob("R3", "single-closer", bool(sw) and bool(pfn) and guarded_by_bool(f, pfn[0], r"AtomicBool(::<.*>)?::swap$", False) is not None,
+        ctx.ob("R3", "single-closer", bool(sw) and bool(pfn) and guarded_by_bool(f, pfn[0], r"(AtomicBool|Atomic)(::<.*>)?::swap$", False) is not None,
                "only the first take() waits; a second concurrent take() gets None instead of stealing the wake-up", f)
     dr = db.methods(self_adt=r"^compio_driver::fd::SharedFd$", name="drop", trait=r"Drop$")
     if not dr:
         ctx.missing("R3", "impl Drop for SharedFd")
     for f in dr:
-        wk = [bb for bb, _ in calls(f, r"WakerSlot::wake$")]
+        wk = [bb for bb, _ in calls(f, r"(WakerSlot|AtomicWaker)::wake$")]
         sc = calls(f, r"(Rc|Arc|Shared)::<.*>::strong_count$")
-        ld = calls(f, r"AtomicBool(::<.*>)?::load$")
-        ok = len(wk) == 1 and bool(sc) and bool(ld) and guarded_by_bool(f, wk[0], r"AtomicBool(::<.*>)?::load$", True) is not None
+        ld = calls(f, r"(AtomicBool|Atomic)(::<.*>)?::load$")
+        ok = len(wk) == 1 and bool(sc) and bool(ld) and guarded_by_bool(f, wk[0], r"(AtomicBool|Atomic)(::<.*>)?::load$", True) is not None
         # the count comparison: Eq with constant 2
         cmp2 = any(s.get("r", {}).get("k") == "bin" and s["r"].get("x") == "Eq" and any(o.get("v") == "2" for o in s["r"]["ops"])
                    for bi, si, s in f.stmts())
@@ -125,6 +125,22 @@ def rules(ctx, db):
                        db.reach(sr, lambda t: call_matches(t, r"FromRawFd>::from_raw_fd$|::from_raw_fd$"), depth=2) is not None,
                        "the io_uring completion wraps the new descriptor into an owning type inside set_result, which the "
                        "driver runs even when the submitter has gone (so a cancelled accept/open does not leak the fd)", sr)
+
+        # multishot accept: every intermediate completion carries a new descriptor, which must be owned from
+        # the moment it is queued (a stream dropped with queued results must close them)
+        multi = Summaries(db, r"^io_uring::opcode::AcceptMulti::new$", depth=4)
+        frf = Summaries(db, r"FromRawFd>::from_raw_fd$|::from_raw_fd$", depth=4)
+        nm_ = 0
+        for imp, adt, ms in oc.op_impls(db, oc.IOUR_OP):
+            entries = [ms[m] for m in ("create_entry", "create_entry_fallback") if m in ms]
+            if not any(multi.may(e) for e in entries):
+                continue
+            pm = ms.get("push_multishot")
+            nm_ += 1
+            ctx.ob("R4", "multishot-fd-owned-when-queued:" + oc.short(adt), pm is not None and frf.may(pm),
+                   "each descriptor reported by an intermediate multishot-accept completion is wrapped into an owning "
+                   "type when it is queued (queued-but-undelivered connections are closed when the stream is dropped)", pm)
+        ctx.floor("R4", "multishot descriptor-producing ops", nm_, 1)
 
     # ---------------- R5
     for nm in ("compio_driver::sys::op::fs::CloseFile", "compio_driver::sys::op::socket::CloseSocket"):
